@@ -161,6 +161,31 @@ def forbidden_scan(files=None):
     return hits
 
 
+def coq_dep_cone(target_v):
+    """Files (relative .v paths) that `target_v` transitively depends on, from coq_makefile's .Makefile.d."""
+    deps = {}
+    try:
+        txt = open(os.path.join(COQ, ".Makefile.d")).read().replace("\\\n", " ")
+    except FileNotFoundError:
+        return None
+    for line in txt.split("\n"):
+        if ":" not in line:
+            continue
+        lhs, rhs = line.split(":", 1)
+        outs = [x for x in lhs.split() if x.endswith(".vo")]
+        ins = [x[:-1] for x in rhs.split() if x.endswith(".vo") and not x.startswith("/")]
+        for o in outs:
+            deps.setdefault(o[:-1], set()).update(ins)
+    seen, todo = set(), [target_v]
+    while todo:
+        f = todo.pop()
+        if f in seen:
+            continue
+        seen.add(f)
+        todo += list(deps.get(f, ()))
+    return sorted(seen)
+
+
 def coq_prepare():
     """(Re)generate _CoqProject and Makefile when the file set changed."""
     srcs = coq_sources()
@@ -429,12 +454,16 @@ def proof_stage(ctx, extra_targets=(), gen=None):
     pid = ctx.pid
     if gen:
         gen()
-    hits = forbidden_scan()
+    targets = ["Properties_%s.vo" % pid] + list(extra_targets)
+    ok, log = coq_make(targets)
+    # forbidden constructs are judged inside this property's dependency cone (other properties' files are
+    # judged by their own checks; bin/validate scans the whole development)
+    cone = coq_dep_cone("Properties_%s.v" % pid)
+    hits = forbidden_scan(cone)
     res = dict(ok=True, failed=[], forbidden=hits)
     if hits:
         res["ok"] = False
-    targets = ["Properties_%s.vo" % pid] + list(extra_targets)
-    ok, log = coq_make(targets)
+    ctx.coverage["dependency_cone"] = cone
     res["make_ok"] = ok
     res["log"] = log
     if not ok:
